@@ -193,6 +193,10 @@ def r6(ctx):
     ctx.check(bool(calls_in_blocks(prog, iu, iu.live_blocks(), r"tokio::time::sleep_until$|time::sleep::sleep_until$")), "idle_until:sleeps", "idle_until sleeps on a timer", iu.where(line=iu.line))
 
 
+def r_plumb(ctx):
+    namesake_plumbing(ctx, ctx.prog, r"^(<)?dnp3::master::", 40, "plumbing")
+
+
 RULES = [
     ("C19.R1", "T2-order", "user queue before automatic work; auto, polls, link status inside an association", r1),
     ("C19.R2", "T5", "the request queue is used FIFO only", r2),
@@ -200,4 +204,5 @@ RULES = [
     ("C19.R4", "T8/T5", "poll rescheduling from completion; demand; readiness test", r4),
     ("C19.R5", "T2/T5", "keep-alive only after the deadline; re-armed on all received traffic", r5),
     ("C19.R6", "T5/T3", "single writer of requests; tasks are awaited one at a time", r6),
+    ("C19.R7", "T8-namesake", "the master's scheduling configuration (keep-alive, poll periods) is plumbed field-to-namesake", r_plumb),
 ]
